@@ -65,6 +65,11 @@ def nh_display(fam, nh):
     return 'uni:' + nh.hex()
 
 
+# value sizes of FlowSpec / EVPN NLRI: small ones and both sides of the one-/two-octet length boundary
+BOUNDS = {'F': [0, 3, 4, 6, 7, 8, 12, 30, 100, 238, 239, 240, 241, 254, 255, 256, 257, 300],
+          'E': [0, 3, 4, 6, 7, 8, 12, 30, 100, 254, 255]}
+
+
 def gen_content(rng, cfg, size='normal'):
     """abstract UPDATE content + expected observations"""
     c = {'wd': [], 'ann': [], 'attrs': [], 'reach': None, 'unreach': None}
@@ -81,7 +86,7 @@ def gen_content(rng, cfg, size='normal'):
         ap = rx(cfg, nlrienc.AFISAFI[fam])
         k = 1 + rng.below(min(nmax, 4 if nlrienc.kind(fam) == 'F' else nmax))
         nl = [nlrienc.gen_value(fam, rng, rng.below(1 << 32) if ap else None,
-                                boundary=(rng.choice([0, 3, 4, 6, 7, 8, 12, 30]) if nlrienc.kind(fam) in ('F', 'E') else None)) for _ in range(k)]
+                                boundary=(rng.choice(BOUNDS[nlrienc.kind(fam)]) if nlrienc.kind(fam) in ('F', 'E') else None)) for _ in range(k)]
         nh = bytes(rng.below(256) for _ in range(rng.choice(NH_LEN[fam])))
         c['reach'] = (fam, nh, nl)
     if rng.chance(1, 3):
@@ -89,7 +94,7 @@ def gen_content(rng, cfg, size='normal'):
         ap = rx(cfg, nlrienc.AFISAFI[fam])
         k = rng.below(min(nmax, 4 if nlrienc.kind(fam) == 'F' else nmax) + 1)
         nl = [nlrienc.gen_value(fam, rng, rng.below(1 << 32) if ap else None,
-                                boundary=(rng.choice([0, 3, 4, 6, 7, 8, 12]) if nlrienc.kind(fam) in ('F', 'E') else None)) for _ in range(k)]
+                                boundary=(rng.choice(BOUNDS[nlrienc.kind(fam)]) if nlrienc.kind(fam) in ('F', 'E') else None)) for _ in range(k)]
         c['unreach'] = (fam, nl)
     # attributes: a random subset in random order (codes unique)
     four = cfg['four']
